@@ -43,13 +43,15 @@ VARIABLES shm,          \* TRUE: shared-memory transport (rings + notification b
           got,          \* requests consumed by the running dispatch
           pendOut,      \* the running dispatch was told POLLOUT and has not yet written the owed notifications
           accReq, dlvReq, accResp, dlvResp, accEvt, dlvEvt,   \* ghost histories
-          last          \* result of the most recent call (0 when it has none)
+          last,         \* result of the most recent call (0 when it has none)
+          stall         \* <<m>> while a client send has queued m but its notification byte was refused (the call has
+                        \* not returned: it retries until the server has read some), else <<>>
 
 chans == <<req, resp, evt, accReq, dlvReq, accResp, dlvResp, accEvt, dlvEvt>>
 notif == <<c2s, s2c, outstanding, pollOut>>
-conf  == <<shm, maxMsg>>
+conf  == <<shm, maxMsg, stall>>     \* what no ordinary call changes
 vars  == <<shm, maxMsg, req, resp, evt, c2s, s2c, outstanding, pollOut, fc, fcMax, prio, disp, cur, got, pendOut,
-           accReq, dlvReq, accResp, dlvResp, accEvt, dlvEvt, last>>
+           accReq, dlvReq, accResp, dlvResp, accEvt, dlvEvt, last, stall>>
 
 POLLIN == 1
 POLLOUT == 4
@@ -59,6 +61,7 @@ FcBlocks == fc > 0 /\ fc <= fcMax
 ClientReadable == IF shm THEN s2c > 0 ELSE evt # <<>>
 ServerReadable == IF shm THEN c2s > 0 ELSE req # <<>>
 Connected == maxMsg > 0
+ClientFree == stall = <<>>                   \* the client is not inside a blocked send
 ServerMayCall == disp = 0 \/ cur # <<>>      \* the server application runs outside the dispatch function or inside msg_process
 
 Fresh(s, mm) ==
@@ -67,7 +70,7 @@ Fresh(s, mm) ==
   /\ c2s = 0 /\ s2c = 0 /\ outstanding = 0 /\ pollOut = FALSE
   /\ fc = 0 /\ fcMax = 1 /\ prio = 1 /\ disp = 0 /\ cur = <<>> /\ got = 0 /\ pendOut = FALSE
   /\ accReq = <<>> /\ dlvReq = <<>> /\ accResp = <<>> /\ dlvResp = <<>> /\ accEvt = <<>> /\ dlvEvt = <<>>
-  /\ last = 0
+  /\ last = 0 /\ stall = <<>>
 
 Init == \E s \in BOOLEAN : Fresh(s, MaxMsgMC)
 
@@ -105,15 +108,31 @@ CSendOk(m) ==
    working on still occupies it: it is released only after the callback returned)                        *)
 CSendMayRefuse(m) == m[2] > maxMsg \/ FcBlocks \/ req # <<>> \/ cur # <<>>
 
+(* The notification byte of a queued request is refused (socket full: only possible while bytes are in flight).
+   The request IS in the channel -- the server may even process it -- but the call has not returned: it
+   retries the byte until the server has read some.  From here on the call can only succeed.                 *)
+CStall(m) ==
+  /\ Connected /\ shm /\ ClientFree /\ c2s >= 1
+  /\ m[2] <= maxMsg /\ ~FcBlocks /\ Len(req) < Cap
+  /\ req' = Append(req, m) /\ accReq' = Append(accReq, m) /\ stall' = <<m>> /\ last' = 0
+  /\ UNCHANGED <<shm, maxMsg, resp, evt, notif, fc, fcMax, prio, disp, cur, got, pendOut,
+                 dlvReq, accResp, dlvResp, accEvt, dlvEvt>>
+CSendResume(m, rc) ==
+  /\ stall = <<m>> /\ rc = m[2]
+  /\ c2s' = c2s + 1 /\ stall' = <<>> /\ last' = rc
+  /\ UNCHANGED <<shm, maxMsg, chans, s2c, outstanding, pollOut, fc, fcMax, prio, disp, cur, got, pendOut>>
+
 (* qb_ipcc_send / qb_ipcc_sendv: rc is the call's return value *)
 CSend(m, rc) ==
-  /\ Connected /\ last' = rc
-  /\ IF rc = m[2] THEN CSendOk(m)
-     ELSE rc < 0 /\ CSendMayRefuse(m) /\ UNCHANGED <<conf, chans, notif, fc, fcMax, prio, disp, cur, got, pendOut>>
+  /\ Connected
+  /\ IF stall # <<>> THEN CSendResume(m, rc)
+     ELSE /\ last' = rc
+          /\ IF rc = m[2] THEN CSendOk(m)
+             ELSE rc < 0 /\ CSendMayRefuse(m) /\ UNCHANGED <<conf, chans, notif, fc, fcMax, prio, disp, cur, got, pendOut>>
 
 (* qb_ipcc_recv with a zero timeout: r = <<rc>> or <<rc, m>> *)
 CRecv(r) ==
-  /\ Connected /\ last' = r[1]
+  /\ Connected /\ ClientFree /\ last' = r[1]
   /\ IF resp # <<>>
        THEN /\ r = <<Head(resp)[2], Head(resp)>>
             /\ resp' = Tail(resp) /\ dlvResp' = Append(dlvResp, Head(resp))
@@ -122,7 +141,7 @@ CRecv(r) ==
 
 (* qb_ipcc_event_recv with a zero timeout: it first polls the descriptor *)
 CEvRecv(r) ==
-  /\ Connected /\ last' = r[1]
+  /\ Connected /\ ClientFree /\ last' = r[1]
   /\ IF evt # <<>> /\ ClientReadable
        THEN /\ r = <<Head(evt)[2], Head(evt)>>
             /\ evt' = Tail(evt) /\ dlvEvt' = Append(dlvEvt, Head(evt))
@@ -134,7 +153,7 @@ CEvRecv(r) ==
 (* qb_ipcc_sendv_recv with a zero timeout = sendv, then (if that was accepted) one recv;
    the single return value does not say which half failed                            *)
 CSendvRecv(m, r) ==
-  /\ Connected
+  /\ Connected /\ ClientFree
   /\ \/ /\ Len(r) = 1 /\ r[1] < 0 /\ CSendMayRefuse(m) /\ last' = r[1]
         /\ UNCHANGED <<conf, chans, notif, fc, fcMax, prio, disp, cur, got, pendOut>>
      \/ /\ m[2] <= maxMsg /\ ~FcBlocks /\ Len(req) < Cap
@@ -150,7 +169,7 @@ CSendvRecv(m, r) ==
 
 (* qb_ipcc_fc_enable_max_set *)
 CFcMax(n, rc) ==
-  /\ Connected /\ last' = rc
+  /\ Connected /\ ClientFree /\ last' = rc
   /\ IF n \in 0..2 THEN rc = 0 /\ fcMax' = n ELSE rc < 0 /\ UNCHANGED fcMax
   /\ UNCHANGED <<conf, chans, notif, fc, prio, disp, cur, got, pendOut>>
 
@@ -221,8 +240,10 @@ Clip == IF prio = 0 THEN 3 ELSE IF prio = 1 THEN 2 ELSE 1
 MsgFor(acc, len) == <<Len(acc) + 1, len, 0>>
 Errs == {-11}
 
-ACSend     == \E len \in Lens : Len(accReq) < MaxSends /\
-                 \E rc \in {len} \cup Errs : CSend(MsgFor(accReq, len), rc)
+ACSend     == \E len \in Lens : Len(accReq) < MaxSends /\ ClientFree /\
+                 \E rc \in {len} \cup Errs : (rc = len /\ shm => c2s < NCap) /\ CSend(MsgFor(accReq, len), rc)
+ACStall    == \E len \in Lens : Len(accReq) < MaxSends /\ c2s >= NCap /\ CStall(MsgFor(accReq, len))
+ACResume   == stall # <<>> /\ CSend(stall[1], stall[1][2])
 ACRecv     == \E r \in {<<-110>>} \cup (IF resp # <<>> THEN {<<Head(resp)[2], Head(resp)>>} ELSE {}) : CRecv(r)
 ACEvRecv   == \E r \in {<<-11>>} \cup (IF evt # <<>> THEN {<<Head(evt)[2], Head(evt)>>} ELSE {}) : CEvRecv(r)
 ACSendvRecv == \E len \in Lens : Len(accReq) < MaxSends /\
@@ -239,7 +260,7 @@ ACbBegin   == fc = 0 /\ got < Clip /\ req # <<>> /\ CbBegin(Head(req))
 ACbEnd     == cur # <<>> /\ \E ret \in {0, -105} : CbEnd(ret, cur[1])
 ADispEnd   == DispEnd(0)
 
-Next == ACSend \/ ACRecv \/ ACEvRecv \/ ACSendvRecv \/ ACFcMax \/ ASResp \/ ASEvent \/ ASRate
+Next == ACSend \/ ACStall \/ ACResume \/ ACRecv \/ ACEvRecv \/ ACSendvRecv \/ ACFcMax \/ ASResp \/ ASEvent \/ ASRate
         \/ ADispBegin \/ ACbBegin \/ ACbEnd \/ ADispEnd
 
 Spec == Init /\ [][Next]_vars
@@ -252,6 +273,7 @@ TypeOK ==
   /\ IsMsgSeq(req) /\ IsMsgSeq(resp) /\ IsMsgSeq(evt)
   /\ c2s \in Nat /\ s2c \in Nat /\ outstanding \in Nat /\ pollOut \in BOOLEAN
   /\ fc \in 0..2 /\ fcMax \in 0..2 /\ prio \in 0..2 /\ disp \in 0..1 /\ Len(cur) <= 1 /\ got \in Nat /\ pendOut \in BOOLEAN
+  /\ Len(stall) <= 1
 
 (* every accepted request is handed to msg_process exactly once, in order, intact (what is
    still queued is the rest); the same for responses and events                          *)
@@ -272,11 +294,11 @@ NoEffectOnError == [][last' < 0 => UNCHANGED chans]_vars
 
 (* counting discipline of the notification bytes (shared-memory transport) *)
 EvtCount == shm => s2c + outstanding = Len(evt)
-ReqCount == shm => c2s = Len(req) + got + Len(cur)
+ReqCount == shm => c2s + Len(stall) = Len(req) + got + Len(cur)
 SockNoBytes == ~shm => c2s = 0 /\ s2c = 0 /\ outstanding = 0
 PollOutInv == pollOut <=> outstanding > 0
 (* queued requests wake the server *)
-ReqWake == (disp = 0 /\ req # <<>>) => ServerReadable
+ReqWake == (disp = 0 /\ Len(req) > Len(stall)) => ServerReadable    \* (a request whose send has not returned yet does not count)
 
 (* "While at least one event is queued and unread, the descriptor the client polls is readable." *)
 Readable == evt # <<>> => ClientReadable
